@@ -20,8 +20,12 @@ MODEL TIE:
     theorem C03_plan_ok_sound) must hold, and every entry must fall in a known class; an entry in no
     class (e.g. a pruned statement with a call to shout, a pruned trapping expression, a pruned function
     that live code can call) is a broken obligation.
-The class histogram (entries covered by a theorem vs. covered only by the plan/no-plan oracle) is
-reported in the evidence."""
+  * round 2: extracted `LiveCheck.plan_ok3` = plan_ok + the verified backward liveness `ds_ok` on the residual plan
+    (flow-sensitive dead stores across branches, loops, scope exits, calls, captures, recursion; theorems
+    C03_prune_dead_stores_sound / C03_plan_ok3_sound): its hypotheses (`v_checked`, `x_checked`) must hold; an entry
+    the liveness checker accepts although it is in no class is a broken obligation.
+The class histogram (entries covered by a theorem vs. covered only by the plan/no-plan oracle), before and after the
+liveness class, is reported in the evidence."""
 import os
 import re
 
@@ -36,11 +40,14 @@ TRUSTED_EXTRA = [
     "plan CHECKER (PlanCheck.plan_ok) applied to the plan the real analysis printed, and about Lang.run_impl's pruning hooks "
     "(in_plan_stmt / in_plan_fn), which transcribe runtime.rs stmt_is_pruned / function_is_pruned",
     "C03: coq/extract/mode_langc03.ml (AST reader copied from mode_lang.ml, verdict printer)",
+    "C03 round 2: the search for the accepted dead-store set is inside Coq (LiveCheck.ds_candidates, untrusted helper); what the theorem "
+    "needs is only the final boolean LiveCheck.ds_ok of that set, which plan_ok3 recomputes (x_checked)",
 ]
 ASSUMPTIONS = [
     "runs ending in Stack overflow or a timeout (implementation) / fuel (model) are not compared",
     "never-read theorem: the unpruned run must not end in the model's variable-missing panic sites (scoping is C04/C06) — the oracle checks that the implementation does not panic",
-    "plan entries found only by flow-sensitive liveness (overwritten before read), right-hand sides with user calls, and never-read locals whose declaration is kept are covered by the plan-vs-no-plan oracle and the model tie only, not by a theorem",
+    "dead-store theorem (round 2): same exclusions as the never-read theorem (fuel, the three variable-missing panic sites of the less-pruned run)",
+    "plan entries that stay covered by the plan-vs-no-plan oracle and the model tie only: pruned FIRST declarations of a local that dead code / an unused function still mentions, right-hand sides that are not total pure expressions (calls to pure built-ins or user functions, operators applied to variables)",
 ]
 CAN_RUN_WITHOUT_MODEL = True
 CFGS = ["nn", "pn", "nf", "pf"]
@@ -87,7 +94,7 @@ class C03Gen(langgen.Gen):
                  "overwrite", "shadow_block", "loop_ctl_dead", "if_else_return", "unused_cycle",
                  "hoisted_in_dead", "never_read", "never_read", "overwrite", "cond_capture_write", "many_locals",
                  "self_update_via_callee", "self_update_via_callee", "self_update_via_callee", "self_update_direct",
-                 "self_update_direct", "hoisted_after_ctl"]
+                 "self_update_direct", "hoisted_after_ctl", "ds_flow", "ds_flow", "ds_flow"]
 
     def __init__(self, rng, opts=None):
         super().__init__(rng, opts)
@@ -543,6 +550,91 @@ class C03Gen(langgen.Gen):
         return lines
 
     # ---- more than 64 locals of a nested function interleaved with the enclosing function's locals
+    # ---- round 2: stores that are dead only flow-sensitively: across a call that does not read them, around a
+    #      recursive call, on every path of a loop with next/comot, at a scope exit, inside a callee with captures
+    def t_ds_flow(self, ind):
+        r, pad = self.r, "  " * ind
+        ty = r.choice([STR, STR, NUM])
+        lines = []
+        form = r.randrange(6)
+        if form in (0, 1, 4) and not self.can_fn():
+            form = 2
+        if form in (2, 3) and self.loop_depth >= 2:
+            form = 5
+        x = self.newvar(ty, pad, lines)
+        if form == 0:
+            # the callee reads ANOTHER captured variable and may write x: only the store before the overwrite is dead
+            y = self.newvar(ty, pad, lines)
+            f, g = self.fresh("f"), self.fresh("f")
+            lines += ["%sdo %s() start" % (pad, f), "%s  return %s" % (pad, y.name), "%send" % pad,
+                      "%sdo %s(c) start" % (pad, g), "%s  if to say (c) start %s get %s end" % (pad, x.name, self.lit(ty)), "%s  return 0" % pad, "%send" % pad,
+                      "%s%s get %s" % (pad, x.name, self.lit(ty)), "%s%s get %s" % (pad, y.name, self.lit(ty)),
+                      "%sshout(%s())" % (pad, f), "%s%s get %s" % (pad, x.name, self.lit(ty)),
+                      "%s%s(%s)" % (pad, g, r.choice(["true", "false"])), "%sshout(%s)" % (pad, x.name),
+                      "%s%s get %s" % (pad, y.name, self.lit(ty))]
+            if r.random() < 0.5:
+                lines.append("%sshout(%s())" % (pad, f))
+        elif form == 1:
+            # recursion: the caller's local is another slot
+            f = self.fresh("f")
+            lines += ["%sdo %s(n) start" % (pad, f), "%s  make t get %s" % (pad, self.lit(ty)), "%s  t get %s" % (pad, self.lit(ty)),
+                      "%s  if to say (n pass 0) start" % pad, "%s    t get %s" % (pad, self.lit(ty)),
+                      "%s    %s get %s(n minus 1)" % (pad, x.name, f) if ty == STR else "%s    %s(n minus 1)" % (pad, f),
+                      "%s    t get %s" % (pad, self.lit(ty)), "%s  end" % pad]
+            if r.random() < 0.5:
+                lines.append("%s  shout(t)" % pad)
+            lines += ["%s  t get %s" % (pad, self.lit(ty)), "%s  return t" % pad, "%send" % pad,
+                      "%sshout(%s(%d))" % (pad, f, r.randint(0, 2)), "%sshout(%s)" % (pad, x.name)]
+        elif form == 2:
+            # every path of the loop body overwrites before reading; one path leaves through next, one through comot
+            i = self.fresh("v")
+            lines += ["%smake %s get 0" % (pad, i), "%sjasi (%s small pass %d) start" % (pad, i, r.randint(1, 3)),
+                      "%s  %s get %s add 1" % (pad, i, i), "%s  %s get %s" % (pad, x.name, self.lit(ty)),
+                      "%s  if to say (%s pass 1) start" % (pad, i), "%s    %s get %s" % (pad, x.name, self.lit(ty)),
+                      "%s    %s" % (pad, r.choice(["next", "comot", "next"])), "%s  end" % pad,
+                      "%s  %s get %s" % (pad, x.name, self.lit(ty))]
+            self.declare(i, NUM)
+            if r.random() < 0.6:
+                lines.append("%s  shout(%s)" % (pad, x.name))
+            lines += ["%send" % pad]
+            if r.random() < 0.6:
+                lines.append("%sshout(%s)" % (pad, x.name))
+        elif form == 3:
+            # loop-carried through the head: the store at the end of the body is read by the next iteration's condition-free read
+            i = self.fresh("v")
+            lines += ["%smake %s get 0" % (pad, i), "%sjasi (%s small pass %d) start" % (pad, i, r.randint(2, 4)),
+                      "%s  %s get %s add 1" % (pad, i, i)]
+            self.declare(i, NUM)
+            if r.random() < 0.7:
+                lines.append("%s  shout(%s)" % (pad, x.name))
+            if r.random() < 0.7:
+                # a store that reaches the next iteration only through `next` (back edge to the loop head)
+                lines += ["%s  if to say (%s pass 1) start" % (pad, i), "%s    %s get %s" % (pad, x.name, self.lit(ty)),
+                          "%s    %s" % (pad, r.choice(["next", "next", "comot"])), "%s  end" % pad]
+            lines += ["%s  %s get %s" % (pad, x.name, self.lit(ty)), "%s  start" % pad, "%s    %s get %s" % (pad, x.name, self.lit(ty)),
+                      "%s    if to say (%s pass 2) start comot end" % (pad, i), "%s  end" % pad,
+                      "%s  %s get %s" % (pad, x.name, self.lit(ty)), "%send" % pad, "%s%s get %s" % (pad, x.name, self.lit(ty))]
+            if r.random() < 0.7:
+                lines.append("%sshout(%s)" % (pad, x.name))
+        elif form == 4:
+            # inside a callee: its own local dies at return, the captured one does not
+            f = self.fresh("f")
+            lines += ["%sdo %s(p) start" % (pad, f), "%s  make t get p" % pad, "%s  %s get %s" % (pad, x.name, self.lit(ty)),
+                      "%s  start" % pad, "%s    make k get t" % pad, "%s    t get %s" % (pad, self.lit(ty)), "%s    k get %s" % (pad, self.lit(ty)), "%s  end" % pad,
+                      "%s  if to say (p na null) start" % pad, "%s    t get %s" % (pad, self.lit(ty)), "%s    return 1" % pad, "%s  end" % pad,
+                      "%s  t get %s" % (pad, self.lit(ty)), "%s  return [t]" % pad, "%send" % pad,
+                      "%s%s get %s" % (pad, x.name, self.lit(ty)), "%sshout(%s(%s))" % (pad, f, r.choice(["null", "1", self.lit(STR)])),
+                      "%sshout(%s)" % (pad, x.name)]
+        else:
+            # scope exit and branches
+            lines += ["%s%s get %s" % (pad, x.name, self.lit(ty)), "%sstart" % pad, "%s  make t get %s" % (pad, x.name),
+                      "%s  %s get %s" % (pad, x.name, self.lit(ty)), "%s  t get %s" % (pad, self.lit(ty)),
+                      "%s  if to say (%s) start %s get %s end if not so start %s get %s end" % (pad, self.expr(BOOL, 2), x.name, self.lit(ty), x.name, self.lit(ty)),
+                      "%send" % pad]
+            if r.random() < 0.7:
+                lines.append("%sshout(%s)" % (pad, x.name))
+        return lines
+
     def t_many_locals(self, ind):
         if not self.can_fn() or self.r.random() < 0.85:
             return None
@@ -821,6 +913,16 @@ def run_planok(env, name, recs, order):
             aug = dict(ent(parts[1]))
             # an entry the plain classifier leaves to the oracle but the augmented plan covers
             v["stmts"] = [(i, "N2" if (k == "NM" and aug.get(i) == "N") else k) for i, k in v["stmts"]]
+        elif l.startswith("verdict3 ") and cur is not None and res.get(cur):
+            # round 2: residual entries the verified liveness checker (LiveCheck.ds_ok) accepts as dead stores
+            parts = [p.strip() for p in l[9:].split("|")]
+            c1, c2 = parts[0].split()
+            rs = parts[2].split()
+            fi = rs.index("F")
+            v = res[cur]
+            v["checked3"] = (c1 == "1", c2 == "1")
+            v["acc3"] = set(parts[1].split()[1:])
+            v["residual3"] = (rs[1:fi], rs[fi + 1:])
     return res
 
 
@@ -960,6 +1062,27 @@ def judge(cid, src, rec, mrec, verdict, out, known_key=None):
             out["classes"][k] = out["classes"].get(k, 0) + 1
         for i, k in verdict["fns"]:
             out["classes"][k] = out["classes"].get(k, 0) + 1
+        # round 2: the same histogram with the entries LiveCheck.ds_ok accepts (theorem C03_plan_ok3_sound)
+        acc3 = verdict.get("acc3", set())
+        c3 = out.setdefault("classes3", {})
+        for i, k in verdict["stmts"]:
+            k3 = ("L:" + k) if (i in acc3 and k not in ("U", "N")) else k
+            c3[k3] = c3.get(k3, 0) + 1
+        for i, k in verdict["fns"]:
+            c3[k] = c3.get(k, 0) + 1
+        if "checked3" in verdict:
+            if not verdict["checked3"][1]:
+                # ds_ok fails even with nothing accepted: a construct the liveness checker does not support
+                out["liveness_structural_rejects"] = out.get("liveness_structural_rejects", 0) + 1
+            r3 = verdict.get("residual3")
+            if (verdict["stmts"] or verdict["fns"]) and all(verdict["checked3"]) and r3 is not None and not r3[0] and not r3[1]:
+                out["plans_fully_covered3"] = out.get("plans_fully_covered3", 0) + 1
+            bad3 = [i for i in acc3 if dict(verdict["stmts"]).get(i) in ("X", None)]
+            if bad3:
+                out["disagreements"].append({"stream": "liveness-checker-accepts-entry-in-no-class", "case": src,
+                                             "detail": "ds_ok accepted %s of plan %s" % (bad3, plan)})
+        elif verdict["stmts"] or verdict["fns"]:
+            out["disagreements"].append({"stream": "verdict3-missing", "case": src, "detail": "nsmodel langc03 printed no verdict3 line"})
         if verdict["stmts"] or verdict["fns"]:
             if not verdict["residual"][0] and not verdict["residual"][1]:
                 out["plans_fully_covered"] += 1
@@ -977,6 +1100,15 @@ def judge(cid, src, rec, mrec, verdict, out, known_key=None):
             out["disagreements"].append({"stream": "plan-entry-in-no-class", "case": src,
                                          "detail": "plan %s prunes %s, which is in none of the classes a pruned entry can belong to "
                                                    "(output/input/mutation/trapping expression, a non-assignment statement in a live position, or a function live code can call)" % (plan, noclass)})
+    # --- cross-check of the proof side: a plan all of whose entries are in one of the four proved classes cannot
+    #     change the behaviour of the MODEL (theorem C03_prune_sound_four_classes); if the implementation's behaviour
+    #     changes on such a plan, either the model tie is broken or the checker/theorem pair is
+    if verdict is not None and "checked3" in verdict and any(k == "plan-changes-behaviour" for k, _ in fails):
+        r3 = verdict.get("residual3") or (["?"], [])
+        if all(verdict["checked3"]) and verdict["checked"] and not r3[0] and not r3[1]:
+            out["disagreements"].append({"stream": "theorem-covered-plan-changes-behaviour", "case": src,
+                                         "detail": "plan %s is fully covered by the four class theorems (plan_ok3: %s) but the implementation behaves differently with it"
+                                                   % (plan, sorted(verdict.get("acc3", [])))})
     for kind, what in fails:
         key = known_key or failure_key(rec, verdict) or (kind + "/" + common.chash(src)[:10])
         if kind != "plan-changes-behaviour" and known_key is None:
@@ -1100,6 +1232,9 @@ def correspond(env, searching=False, model=True):
         f.pop("kind", None) if False else None
     covered = sum(v for k, v in out["classes"].items() if k in ("U", "N", "N2", "UF"))
     total = sum(out["classes"].values())
+    c3 = out.get("classes3", {})
+    covered3 = sum(v for k, v in c3.items() if k in ("U", "N", "N2", "UF") or k.startswith("L:"))
+    ds_all = sum(v for k, v in c3.items() if k in ("DS", "L:DS"))
     samples = [{"id": cid, "program": s} for cid, s in cases[:3]]
     return {
         "evaluations": out["evaluations"],
@@ -1115,12 +1250,22 @@ def correspond(env, searching=False, model=True):
                   "plans_fully_covered_by_theorems": out["plans_fully_covered"],
                   "plans_fully_covered_with_augmented_plan": out.get("plans_fully_covered2", 0), "plan_verdicts": out["verdicts"],
                   "plan_entry_classes": out["classes"],
-                  "plan_entries_total": total, "plan_entries_covered_by_a_theorem": covered,
-                  "plan_entries_covered_by_oracle_only": total - covered,
+                  "plan_entries_total": total, "plan_entries_covered_by_a_theorem_round1": covered,
+                  "plan_entries_covered_by_oracle_only_round1": total - covered,
+                  "plan_entry_classes_round2": c3,
+                  "plan_entries_covered_by_a_theorem": covered3,
+                  "plan_entries_covered_by_oracle_only": total - covered3,
+                  "flow_sensitive_dead_stores_total": ds_all,
+                  "flow_sensitive_dead_stores_covered_by_the_liveness_theorem": c3.get("L:DS", 0),
+                  "plans_fully_covered_by_the_four_class_theorem": out.get("plans_fully_covered3", 0),
+                  "programs_the_liveness_checker_rejects_structurally": out.get("liveness_structural_rejects", 0),
                   "class_legend": {"U": "unreachable (theorem)", "N": "never-read local, total right-hand side (theorem)", "UF": "unused function (theorem)",
                                    "N2": "never-read local whose declaration the analysis keeps (theorem C03_plan_ok2_sound: via the augmented plan)",
                                    "NM": "never read, but some writer has a right-hand side that is not a total pure expression (oracle only)",
-                                   "DS": "dead store by flow-sensitive liveness (oracle only)", "DC": "dead store with calls (oracle only)",
+                                   "DS": "dead store by flow-sensitive liveness not accepted by LiveCheck.ds_ok: pruned FIRST declaration of a local, or right-hand side not a total pure expression (oracle only)",
+                                   "DC": "dead store with calls in the right-hand side (oracle only)",
+                                   "L:<k>": "round 2: entry of round-1 class <k> accepted by the verified backward liveness LiveCheck.ds_ok "
+                                            "(theorem C03_prune_dead_stores_sound / C03_plan_ok3_sound; all constructs incl. loops, scope exits, calls, captures, recursion)",
                                    "X": "no class: broken obligation", "XF": "function live code can call: broken obligation"},
                   "model_compare": out["compare"], "warnings": out["warn"], "unreachable_tags_checked": out["tags_checked"],
                   "never_read_value_tags_checked": out["values_checked"], "panics_in_both_configurations": out["panics_both"],
